@@ -180,7 +180,8 @@ Step ==
                   b4 == AddIf(b3, notclo, [prop |-> "C11", what |-> "returned descriptor is not close-on-exec", case |-> e.case, line |-> l, nr |-> e.op, path |-> "", flags |-> 0])
               IN
               /\ bad' = b4
-              /\ lazy' = IF (listed \cap globals) # {} THEN lazy \cup {e.wpid} ELSE lazy
+              \* (a procfs root that is the call's own returned object -- ProcfsHandle::new() -- is not the global handle)
+              /\ lazy' = IF ((listed \ ret) \cap globals) # {} THEN lazy \cup {e.wpid} ELSE lazy
               /\ inCall' = FALSE /\ ledger' = {} /\ verified' = {}
               /\ UNCHANGED <<lent, nsys>>
          [] OTHER -> UNCHANGED <<ledger, lent, verified, lazy, bad, inCall, nsys>>
